@@ -324,7 +324,12 @@ func formatForStmt(ctx *formatCtx, v *ast.ForStmt) {
 
 	formatStmt(ctx, v.Init)
 	formatExpr(ctx, v.Cond, &v.Cond)
-	formatStmt(ctx, v.Post)
+	if es, ok := v.Post.(*ast.ExprStmt); ok {
+		// a call in post position must keep its parentheses: no command style before '{'
+		formatExpr(ctx, es.X, &es.X)
+	} else {
+		formatStmt(ctx, v.Post)
+	}
 	formatBlockStmt(ctx, v.Body)
 }
 
